@@ -111,7 +111,7 @@ def body(ctx, case):
                 pdict[name] = (sig, None)
         for n_, s2 in enumerate(list(inputs2) + list(ctls2)):
             add_port(s2, f"in{n_}")
-        for d in ("sync", "b", "c"):
+        for d in cds2:                     # the three top-level domains and the ones defined inside submodules
             add_port(cds2[d].clk, f"clk_{d}")
             if cds2[d].rst is not None:
                 add_port(cds2[d].rst, f"rst_{d}")
@@ -178,7 +178,7 @@ def body(ctx, case):
             last[label] = got
         return None
 
-    level = {"sync": 0, "b": 0, "c": 0}
+    level = {d: 0 for d in cds}
 
     async def tb(c):
         mm = compare(c, -1, "initial")
